@@ -20,7 +20,7 @@ PROPERTY = "C03"
 
 # "inplace": from then on the harness keeps its element arrays in persistent buffers and refreshes them IN PLACE (same array objects,
 # new values) before announcing the change with Need_Update() - what a user subclass that recycles its buffers does
-OPS = ["assemble", "lagrange", "clearbc", "slots", "values", "kind", "mesh", "renumber", "inplace"]
+OPS = ["assemble", "lagrange", "clearbc", "dirichlet", "slots", "values", "kind", "mesh", "renumber", "inplace"]
 SLOT_TABLES = 5
 KINDS = ["real", "real_then_complex", "complex", "complex_then_real", "complex64"]  # complex64: single-precision complex element arrays
 MESHES = {
@@ -268,9 +268,12 @@ def _run_history(case):
             nodes = np.array([0, 1])
             dofs = simu.Bc_dofs_nodes(nodes, [unk[0]], pt)
             simu._Bc_Add_Lagrange(LagrangeCondition(pt, nodes, dofs, [unk[0]], np.asarray([0.0]), np.asarray([1.0, -1.0]), "probe"))
+        elif op == "dirichlet":
+            # with Lagrange conditions present every Dirichlet dof adds a multiplier row: the size of the kept system changes
+            unk = simu.Get_unknowns()
+            simu.add_dirichlet(np.array([simu.mesh.Nn - 1]), [0.0], [unk[-1]])
         elif op == "clearbc":
-            simu.Bc_Init()
-            simu.Need_Update()
+            simu.Bc_Init()  # (no Need_Update(): clearing the conditions is a public operation, the simulation keeps its own books)
         elif op == "slots":
             simu.probe_slot = (simu.probe_slot + 1) % SLOT_TABLES
             simu.Need_Update()
@@ -418,7 +421,6 @@ def _run_realsim_beam(case):
             s.add_connection_hinged(mesh.Nodes_Point(p1)) if hasattr(s, "add_connection_hinged") else None
         if stage == "cleared":
             s.Bc_Init()
-            s.Need_Update()
         dof_n = s.Get_dof_n(pt)
         Ndof = s.mesh.Nn * dof_n + s._Bc_Lagrange_dim(pt)
         got = s.Assembly(pt)
